@@ -182,7 +182,7 @@ func copyTable(src *stores.Mem, dst objects.Store, sum []byte) error {
 }
 
 // Build creates both repositories.
-func Build(tp Topology) (*World, error) {
+func Build(tp Topology, h2 ...bool) (*World, error) {
 	w := &World{T: tp, Uni: stores.NewMem()}
 	// one table per distinct Table value: 300 rows (2 blocks); the second block is specific to the
 	// table (so that the presence of a table is specific to the commits carrying it), the first
@@ -244,7 +244,11 @@ func Build(tp Topology) (*World, error) {
 			}
 		}
 	}
-	w.Server = refserver.New(rdb, rrs)
+	if len(h2) > 0 && h2[0] {
+		w.Server = refserver.NewH2(rdb, rrs)
+	} else {
+		w.Server = refserver.New(rdb, rrs)
+	}
 	// local
 	w.Repo, err = cli.NewRepo()
 	if err != nil {
